@@ -110,18 +110,29 @@ def clause1_auth(ctx, P):
     ctx.floor("C20.1 R-GATE", 10)
 
 
-def _persist_fn(P):
+def _persist_fn(P, cg):
     cp = P.fn("auth_file.c:change_password")
     for c in cp.calls():
         if c.callee and c.callee in P.functions:
             g = P.functions[c.callee]
-            if g.base == "auth_file.c" and g.calls(("write", "rename", "ftruncate", "pwrite")):
+            if g.base == "auth_file.c" and cg.may_call(g, {"write", "pwrite", "rename", "ftruncate", "fwrite"}):
                 return g
     raise AnalysisBroken("no function called from change_password writes the credential file")
 
 
-def clause2_atomic(ctx, P):
-    w = _persist_fn(P)
+def _writes(P, cg, f, i):
+    """call that (transitively) writes file data"""
+    if i.op != "call" or not i.callee:
+        return False
+    n = P.srcname_of(i.callee)
+    if n in ("write", "pwrite", "fwrite"):
+        return True
+    g = P.functions.get(i.callee)
+    return g is not None and P.own(g) and cg.may_call(g, {"write", "pwrite", "fwrite"})
+
+
+def clause2_atomic(ctx, P, cg):
+    w = _persist_fn(P, cg)
     views = Q.path_views(ctx, P, w)
     trunc = w.calls(("ftruncate", "truncate"))
     for t in trunc:
@@ -136,9 +147,10 @@ def clause2_atomic(ctx, P):
         raise AnalysisBroken("%s has no success path" % w.key)
     bad = None
     for v in ok_paths:
-        order = [P.srcname_of(i.callee) for _, i in v.calls() if i.callee]
+        seq = [i for _, i in v.calls() if i.callee]
+        order = [("WRITE" if _writes(P, cg, w, i) else P.srcname_of(i.callee)) for i in seq]
         try:
-            iw = max(k for k, n in enumerate(order) if n in ("write", "write_all", "pwrite"))
+            iw = max(k for k, n in enumerate(order) if n == "WRITE")
             isync = order.index("fsync", iw)
             iren = order.index("rename", isync)
         except ValueError:
@@ -155,8 +167,8 @@ def clause2_atomic(ctx, P):
     ctx.floor("C20.2 R-PROTO", 1)
 
 
-def clause3_write(ctx, P):
-    w = _persist_fn(P)
+def clause3_write(ctx, P, cg):
+    w = _persist_fn(P, cg)
     writes = []
     for f in P.own_functions():
         if f.base == "auth_file.c":
@@ -231,10 +243,10 @@ def clause3_write(ctx, P):
     ctx.floor("C20.3 R-LOOP", 2)
 
 
-def clause4_effective(ctx, P):
+def clause4_effective(ctx, P, cg):
     cp = P.fn("auth_file.c:change_password")
     views = Q.path_views(ctx, P, cp)
-    w = _persist_fn(P)
+    w = _persist_fn(P, cg)
     bad = None
     n = 0
     for v in views:
@@ -297,9 +309,9 @@ def clause5_hygiene(ctx, P):
 
 def run(ctx):
     for cfg in ctx.configs(["default"] if ctx.tier == "quick" else None):
-        P = cfg.P
+        P, cg = cfg.P, cfg.cg
         clause1_auth(ctx, P)
-        clause2_atomic(ctx, P)
-        clause3_write(ctx, P)
-        clause4_effective(ctx, P)
+        clause2_atomic(ctx, P, cg)
+        clause3_write(ctx, P, cg)
+        clause4_effective(ctx, P, cg)
         clause5_hygiene(ctx, P)
